@@ -51,6 +51,11 @@ def run(ck):
         for si, s in enumerate(canon):
             add(f"g{gi}_s{si}", ["w " + hx(s), f"mulgen $0 {e(G)}", "snap"], ("mulgen", gt, G, s))
             ck.count(("mulgen", gt, s), kind="canonical scalar x generator")
+        # the same generator handed over in a projective representation with Z != 1 (odd and even scalars)
+        for zi, z in enumerate((7, rng.scalar() or 3)):
+            for si, s in enumerate([1, 3, 6, J.RJ - 2, rng.randrange(J.RJ) | 1]):
+                add(f"g{gi}_z{zi}_s{si}", ["w " + hx(s), f"mulgen $0 {e(G, z)}", "snap"], ("mulgen", gt + f", extended representation with Z={z:#x}"[:40], G, s))
+                ck.count(("mulgen-z", gt, z, s), kind="canonical scalar x generator with Z != 1")
         for si, s in enumerate(noncanon):
             add(f"g{gi}_n{si}", ["w " + hx(s), f"mulgen $0 {e(G)}", "snap"], ("mulgen-noncanonical", gt, G, s))
             ck.count(("mulgen-nc", gt, s), kind="non-canonical scalar witness (entry point)")
